@@ -628,6 +628,242 @@ def reset_shape(repo):
     return None
 
 
+
+# ------------------------------------------------------------------ state OUTSIDE the objects
+def _fname(call):
+    f = call.func
+    return f.attr if isinstance(f, ast.Attribute) else getattr(f, 'id', None)
+
+
+def _root_name(n):
+    while isinstance(n, (ast.Attribute, ast.Subscript, ast.Call)):
+        n = n.func if isinstance(n, ast.Call) else n.value
+    return n.id if isinstance(n, ast.Name) else None
+
+
+def reset_name_source(repo):
+    """HOW `ResetMixin.reset` obtains the names it deletes: 'walkPerCall' (recomputed from the class dictionaries on
+    every call, nothing kept outside the object), 'ownTable' (a table stored on the class and looked up in the class's
+    OWN dictionary with a constant key), 'inheritedTable' (stored on the class and found by attribute lookup —
+    getattr / hasattr / cls.<name> — which also finds a parent's table), 'unknown' (any other state outside the
+    object: globals, module-level containers)."""
+    try:
+        tree = _parse('nitime/descriptors.py', repo)
+    except Exception:
+        return 'unknown', ['descriptors.py not parsed']
+    fn = None
+    methods, modfuncs = {}, {f.name: f for f in tree.body if isinstance(f, ast.FunctionDef)}
+    for c in ast.walk(tree):
+        if isinstance(c, ast.ClassDef) and c.name == 'ResetMixin':
+            for f in c.body:
+                if isinstance(f, ast.FunctionDef):
+                    methods[f.name] = f
+                    if f.name == 'reset':
+                        fn = f
+    if fn is None:
+        return 'unknown', ['ResetMixin.reset not found']
+    clsnames = set()
+
+    def is_cls(e):
+        if isinstance(e, ast.Attribute) and e.attr == '__class__' and _is_self(e.value):
+            return True
+        if isinstance(e, ast.Call) and getattr(e.func, 'id', None) == 'type' and len(e.args) == 1 and _is_self(e.args[0]):
+            return True
+        return isinstance(e, ast.Name) and e.id in clsnames
+
+    def is_mro(e):
+        if isinstance(e, ast.Attribute) and e.attr in ('__mro__', '__bases__') and is_cls(e.value):
+            return True
+        if isinstance(e, ast.Call) and _fname(e) in ('mro', 'getmro', 'reversed', 'list', 'tuple'):
+            a = (e.args[0] if e.args else None)
+            if isinstance(e.func, ast.Attribute) and e.func.attr == 'mro' and is_cls(e.func.value):
+                return True
+            return a is not None and (is_cls(a) or is_mro(a))
+        return False
+    # `reset` together with the helpers it calls (methods through self / the class, module-level functions)
+    fns = [fn]
+
+    class _All:
+        pass
+    changed = True
+    while changed:
+        changed = False
+        for f in list(fns):
+            for n in ast.walk(f):
+                if isinstance(n, ast.Assign) and len(n.targets) == 1 and isinstance(n.targets[0], ast.Name) and is_cls(n.value) \
+                        and n.targets[0].id not in clsnames:
+                    clsnames.add(n.targets[0].id)
+                    changed = True
+                if isinstance(n, (ast.For, ast.comprehension)) and is_mro(n.iter):
+                    for x in ast.walk(n.target):
+                        if isinstance(x, ast.Name) and x.id not in clsnames:
+                            clsnames.add(x.id)
+                            changed = True
+                if isinstance(n, ast.Call):
+                    tgt, skip = None, 0
+                    if isinstance(n.func, ast.Attribute) and n.func.attr in methods and (_is_self(n.func.value) or is_cls(n.func.value)):
+                        tgt = methods[n.func.attr]
+                        skip = 1
+                        if is_cls(n.func.value) and tgt.args.args and tgt.args.args[0].arg not in clsnames:
+                            clsnames.add(tgt.args.args[0].arg)
+                            changed = True
+                    elif isinstance(n.func, ast.Name) and n.func.id in modfuncs:
+                        tgt = modfuncs[n.func.id]
+                    if tgt is not None:
+                        if tgt not in fns:
+                            fns.append(tgt)
+                            changed = True
+                        for i, a in enumerate(n.args):
+                            if is_cls(a) and i + skip < len(tgt.args.args) and tgt.args.args[i + skip].arg not in clsnames:
+                                clsnames.add(tgt.args.args[i + skip].arg)
+                                changed = True
+    locs = set()
+    for f in fns:
+        locs |= {a.arg for a in f.args.args}
+        for n in ast.walk(f):
+            if isinstance(n, ast.Name) and isinstance(n.ctx, ast.Store):
+                locs.add(n.id)
+    locs |= set(modfuncs)
+    fn = ast.Module(body=list(fns), type_ignores=[])
+    DUNDER = ('__mro__', '__dict__', 'mro', '__name__', '__bases__', '__class__', '__qualname__', '__module__')
+    stores = reads_attr = reads_own = other = False
+    why = []
+
+    def is_cls_dict(e):
+        return (isinstance(e, ast.Attribute) and e.attr == '__dict__' and is_cls(e.value)) or \
+            (isinstance(e, ast.Call) and getattr(e.func, 'id', None) == 'vars' and e.args and is_cls(e.args[0]))
+    for n in ast.walk(fn):
+        if isinstance(n, (ast.Global, ast.Nonlocal)):
+            other = True
+            why.append('global/nonlocal statement')
+        if isinstance(n, ast.Attribute) and is_cls(n.value) and n.attr not in DUNDER:
+            if isinstance(n.ctx, ast.Store):
+                stores = True
+                why.append('stores %s on the class' % n.attr)
+            else:
+                reads_attr = True
+                why.append('reads %s through the class (attribute lookup)' % n.attr)
+        if isinstance(n, ast.Call):
+            fnm = _fname(n)
+            if fnm == 'setattr' and isinstance(n.func, ast.Name) and n.args and is_cls(n.args[0]):
+                stores = True
+                why.append('setattr on the class')
+            if fnm in ('getattr', 'hasattr') and isinstance(n.func, ast.Name) and n.args and is_cls(n.args[0]) \
+                    and not (len(n.args) > 1 and const_key(n.args[1]) in DUNDER):
+                reads_attr = True
+                why.append('%s on the class' % fnm)
+            if isinstance(n.func, ast.Attribute) and fnm in ('get', '__contains__', '__getitem__') and is_cls_dict(n.func.value) \
+                    and n.args and const_key(n.args[0]) is not None:
+                reads_own = True
+                why.append('looks %r up in the class\'s own dictionary' % const_key(n.args[0]))
+        if isinstance(n, ast.Subscript) and is_cls_dict(n.value) and const_key(n.slice) is not None:
+            reads_own = True
+            why.append('looks %r up in the class\'s own dictionary' % const_key(n.slice))
+        if isinstance(n, ast.Compare) and len(n.ops) == 1 and isinstance(n.ops[0], (ast.In, ast.NotIn)) and is_cls_dict(n.comparators[0]) \
+                and const_key(n.left) is not None:
+            reads_own = True
+            why.append('tests %r in the class\'s own dictionary' % const_key(n.left))
+        # anything rooted at a name that is neither local, nor self, nor a class of the MRO: module-level state
+        if isinstance(n, (ast.Subscript, ast.Attribute)) or (isinstance(n, ast.Call) and isinstance(n.func, ast.Attribute)):
+            r = _root_name(n)
+            if r is not None and r not in locs and r != 'self' and r not in clsnames:
+                other = True
+                why.append('uses the non-local name %s' % r)
+    if other:
+        return 'unknown', sorted(set(why))
+    if not stores and not reads_attr and not reads_own:
+        return 'walkPerCall', []
+    if stores and reads_own and not reads_attr:
+        return 'ownTable', sorted(set(why))
+    if stores and reads_attr:
+        return 'inheritedTable', sorted(set(why))
+    return 'unknown', sorted(set(why))
+
+
+MUTABLE_DISPLAY = (ast.Dict, ast.List, ast.Set, ast.ListComp, ast.DictComp, ast.SetComp)
+
+
+def ctor_bindings(init, input_names):
+    """{slot: set of provenances} for every `self.<slot> = <expr>` of an `__init__`: 'fresh' (an object built right
+    there), 'arg:<p>' (the caller's argument object itself), 'process' (a module-level / class-level object, or a
+    mutable default argument: shared by every object built that way), 'input', 'slot:<y>'"""
+    params = [a.arg for a in init.args.args if a.arg != 'self']
+    defaults = dict(zip(params[len(params) - len(init.args.defaults):], init.args.defaults))
+    local = {}
+    for n in ast.walk(init):
+        if isinstance(n, ast.Assign):
+            for t in n.targets:
+                if isinstance(t, ast.Name):
+                    local.setdefault(t.id, []).append(n.value)
+        elif isinstance(n, (ast.For, ast.comprehension)):
+            for x in ast.walk(n.target):
+                if isinstance(x, ast.Name):
+                    local.setdefault(x.id, []).append(ast.Constant(value=0))
+    builtins_ = {'True', 'False', 'None'}
+
+    def prov(e, depth=0):
+        if e is None or depth > 4:
+            return {'fresh'}
+        if isinstance(e, ast.IfExp):
+            return prov(e.body, depth) | prov(e.orelse, depth)
+        if isinstance(e, ast.BoolOp):
+            out = set()
+            for v in e.values:
+                out |= prov(v, depth)
+            return out
+        if isinstance(e, ast.Name):
+            if e.id in builtins_:
+                return {'fresh'}
+            if e.id in local and e.id not in params:
+                out = set()
+                for v in local[e.id]:
+                    out |= prov(v, depth + 1)
+                return out
+            if e.id in params:
+                out = {'input'} if e.id in input_names else {'arg:' + e.id}
+                d = defaults.get(e.id)
+                if isinstance(d, MUTABLE_DISPLAY) or (isinstance(d, ast.Call) and _fname(d) in ('dict', 'list', 'set')):
+                    out.add('process')           # one default object for every call
+                if e.id in local:
+                    for v in local[e.id]:
+                        out |= prov(v, depth + 1)
+                return out
+            return {'process'}                   # a module-level name
+        if isinstance(e, (ast.Attribute, ast.Subscript)):
+            a = self_attr(e)
+            if a is not None:
+                return {'input'} if a == 'input' else {'slot:' + a}
+            r = e
+            while isinstance(r, (ast.Attribute, ast.Subscript)):
+                if self_attr(r) is not None:
+                    return {'input'} if self_attr(r) == 'input' else {'fresh'}
+                r = r.value
+            if isinstance(r, ast.Name):
+                if r.id in params:
+                    return {'input'} if r.id in input_names else {'fresh'}
+                if r.id in local:
+                    return {'fresh'}
+                if r.id == 'self':
+                    return {'fresh'}
+                return {'process'}               # attribute / element of a module-level object
+            return {'fresh'}
+        return {'fresh'}
+    out = {}
+    for n in ast.walk(init):
+        if isinstance(n, ast.Assign):
+            for t in n.targets:
+                for tt in (t.elts if isinstance(t, (ast.Tuple, ast.List)) else [t]):
+                    a = self_attr(tt)
+                    if a is not None and a != 'input':
+                        out.setdefault(a, set()).update(prov(n.value))
+    # resolve slot aliases
+    for _ in range(3):
+        for a, ps in out.items():
+            for q in [x for x in ps if x.startswith('slot:')]:
+                ps |= out.get(q[5:], set()) - {q}
+    return out
+
+
 def tables(repo=None):
     """list of class tables (dicts) + global info"""
     repo = repo or REPO
@@ -759,7 +995,27 @@ def tables(repo=None):
                 init_present.append((slots.index(s), None))
             elif s in dw:
                 init_present.append((slots.index(s), fl(('none:' + s, False))))
+        # slots bound at construction to an object that outlives / is shared beyond the instance, and that the
+        # constructor or a getter writes INTO (sub-slot writes): interference between instances goes through these
+        bind = {}
+        if init is not None:
+            for ci in reversed(chain):
+                if '__init__' in ci.funcs:
+                    bind.update(ctor_bindings(ci.funcs['__init__'], tuple(in_names) if has_input else ('input',)))
+        written_into = {s_.split('.')[0] for s_ in assigned if '.' in s_}
+        for r in recs:
+            for lst in ('writes', 'dwrites'):
+                for (si, _) in r[lst]:
+                    if '.' in slots[si]:
+                        written_into.add(slots[si].split('.')[0])
+        proc_b = sorted(a for a, ps in bind.items() if 'process' in ps and a in written_into)
+        arg_k = sorted(a for a, ps in bind.items() if any(x.startswith('arg:') for x in ps) and a in written_into)
+
+        def with_subs(names):
+            return [slots.index(t) for t in slots if t in names or t.split('.')[0] in names]
         out.append({'cls': cname, 'file': classes[cname].rel, 'getters': topo, 'slots': slots, 'flags': flags,
+                    'processBound': with_subs(proc_b), 'argKept': with_subs(arg_k),
+                    'bindings': {a: sorted(ps) for a, ps in sorted(bind.items()) if ps - {'fresh', 'input'}},
                     'recs': recs, 'initPresent': init_present,
                     'initDerived': [slots.index(s) for s in derived if s in slots] if has_input else [],
                     'derivedNames': derived if has_input else [],
@@ -767,7 +1023,8 @@ def tables(repo=None):
                     'inherited': [gid[g] for g in topo if g not in own],
                     'hasInput': has_input, 'hasReset': any(('ResetMixin' in ci.bases) for ci in chain),
                     'hasSetInput': 'set_input' in all_funcs, 'notes': notes})
-    return {'classes': out, 'reset': reset_shape(repo),
+    src, why = reset_name_source(repo)
+    return {'classes': out, 'reset': reset_shape(repo), 'resetNameSource': src, 'resetNameSourceWhy': why,
             'inplace': {k: sorted(str(x) for x in v if not isinstance(x, int)) for k, v in sorted(inplace.items())}}
 
 
@@ -813,7 +1070,9 @@ def gen_analyzers():
         L.append('    initPresent := %s' % lpairs(c['initPresent']))
         L.append('    initDerived := [%s]' % ', '.join(str(i) for i in c['initDerived']))
         L.append('    inherited := [%s]' % ', '.join(str(i) for i in c['inherited']))
-        L.append('    refreshed := [%s] }' % ', '.join(str(i) for i in c['refreshed']))
+        L.append('    refreshed := [%s]' % ', '.join(str(i) for i in c['refreshed']))
+        L.append('    processBound := [%s]' % ', '.join(str(i) for i in c['processBound']))
+        L.append('    argKept := [%s] }' % ', '.join(str(i) for i in c['argKept']))
         L.append('')
     def san(x):
         return ''.join(ch if ch.isalnum() else '_' for ch in x)
@@ -832,8 +1091,12 @@ def gen_analyzers():
     L.append('def resetWalksMRO : Bool := %s' % ('true' if t['reset'] == 'mro' else 'false'))
     L.append('/-- the shape of `ResetMixin.reset` was recognised -/')
     L.append('def resetShapeKnown : Bool := %s' % ('true' if t['reset'] in ('own', 'mro') else 'false'))
+    L.append('/-- how `ResetMixin.reset` obtains the names it deletes%s -/' % ((' (' + '; '.join(t['resetNameSourceWhy']) + ')') if t['resetNameSourceWhy'] else ''))
+    L.append('def resetNameSource : NameSource := .%s' % t['resetNameSource'])
     L += ['', 'end Nitime.Generated', '']
-    echo = {'reset': t['reset'], 'inplace_helpers': t['inplace'],
+    echo = {'reset': t['reset'], 'resetNameSource': t['resetNameSource'], 'resetNameSourceWhy': t['resetNameSourceWhy'],
+            'ctor_bindings': {c['cls']: c['bindings'] for c in t['classes'] if c['bindings']},
+            'inplace_helpers': t['inplace'],
             'classes': {c['cls']: {'getters': c['getters'], 'slots': c['slots'], 'flags': c['flags'],
                                    'derived': c['derivedNames'], 'refreshed': [c['slots'][i] for i in c['refreshed']], 'notes': c['notes'],
                                    'effects': {r['name']: {k: r[k] for k in ('writes', 'dwrites', 'clobbers', 'clobbersInput') if r[k]}
